@@ -13,8 +13,10 @@ and every access to a wire field is one obligation:
 
     converted            the access is the operand of ntoh* / the target of a hton* store           -> proved
     copy / compare       stored from, compared (==, !=) or combined bitwise with NET or ANY values  -> proved
-    arithmetic           operand of + - * / % << >> < <= > >= ++ -- += ... without conversion      -> VIOLATION
+    arithmetic           operand of + - * / % << >> ++ -- += ... without conversion, or of an ordering
+                         comparison with a host-order value (size_t variables count as host order)  -> VIOLATION
                          (on a little-endian host the carry between the two bytes runs the wrong way)
+    ordering             < <= > >= against a value not known to be host order (a table in wire order) -> undecided
     host store           a HOST value is stored into the field                                      -> VIOLATION
     flip                 `f = swap(f)` on the same lvalue: the in-place flip idiom                  -> not an obligation
     escapes              passed to a callee, returned, stored from an UNK value                     -> undecided (listed)
@@ -71,6 +73,7 @@ class Tagger:
         """tags of local variables: the join of everything assigned to them (two rounds for chains)"""
         for _ in range(2):
             acc = {}
+            use = {}
             for pos, root, x, ps in self.fn.nodes():
                 tgt = val = None
                 if x.get("k") == "bin" and x["op"] == "=":
@@ -87,10 +90,19 @@ class Tagger:
                         acc.setdefault(l.get("id"), set()).add(HOST)
                 if tgt is not None:
                     acc.setdefault(tgt, set()).add(self.tag(val))
+                # a plain variable handed to hton* holds a host value, to ntoh* a wire value
+                if _swap_call(x) and SWAPS[x["fn"]]:
+                    a = strip_casts(x["args"][0])
+                    if a.get("k") == "ref" and a.get("dk") in ("local", "parm") and (x["fn"].startswith("hton") or x["fn"].startswith("ntoh")):
+                        use.setdefault(a.get("id"), set()).add(HOST if x["fn"].startswith("hton") else NET)
             self.var = {}
             for i, ts in acc.items():
                 ts = ts - {ANY}
                 self.var[i] = next(iter(ts)) if len(ts) == 1 else (ANY if not ts else UNK)
+            for i, ts in use.items():
+                # never-assigned variables (parameters) take the order their uses imply
+                if i not in acc and len(ts) == 1:
+                    self.var[i] = next(iter(ts))
 
     def is_wire(self, m):
         return m.get("k") == "mem" and (m.get("rec"), m.get("f")) in self.wire
@@ -117,7 +129,12 @@ class Tagger:
         if k == "mem":
             return NET if self.is_wire(e) else UNK
         if k == "ref":
-            return self.var.get(e.get("id"), UNK)
+            t = self.var.get(e.get("id"), UNK)
+            if t == UNK and "t" in e:
+                ty = self.u.type(e["t"])
+                if ty["k"] == "int" and (ty.get("w") or 0) >= 64:
+                    return HOST              # sizes and counts (size_t, 64-bit): wire fields here are 16/32-bit
+            return t
         if k == "cond":
             a, b = self.tag(e["x"]), self.tag(e["y"])
             if a == b or b == ANY:
@@ -207,6 +224,11 @@ def check(rep, unit, fns, wire=None, rule="R-ENDIAN"):
                     rep.proved(rule, fn, inst, desc, "copied to wire field %s" % key(l), ln)
                 else:
                     rep.undecided(rule, fn, inst, desc, "copied unconverted to %s" % key(l)[:60], ln)
+            elif par.get("k") == "bin" and par["op"] in ("<", "<=", ">", ">=") and \
+                    tg.tag(par["y"] if on("x") else par["x"]) != HOST:
+                # ordering two unconverted values is meaningful only for tables built in wire order: not decided
+                rep.undecided(rule, fn, inst, desc, "ordering comparison with %s, whose byte order is not known to be host order" % key(
+                    strip_casts(par["y"] if on("x") else par["x"]))[:60], ln)
             elif par.get("k") == "bin" and par["op"] in ARITH:
                 rep.violated(rule, fn, inst, desc, "operand of '%s' without ntohs/ntohl: on a little-endian host the carry between "
                              "the bytes runs the wrong way (%s)" % (par["op"], key(par)[:80]), ln)
@@ -228,6 +250,10 @@ def check(rep, unit, fns, wire=None, rule="R-ENDIAN"):
                     rep.proved(rule, fn, inst, desc, "bitwise '%s' with a network-order or neutral value" % par["op"], ln)
                 else:
                     rep.undecided(rule, fn, inst, desc, "bitwise '%s' with %s" % (par["op"], key(strip_casts(other))[:60]), ln)
+            elif par.get("k") == "sizeof":
+                n -= 1
+                per[what] -= 1
+                continue                     # not evaluated
             elif par.get("k") == "un" and par["op"] == "&":
                 n -= 1
                 per[what] -= 1
